@@ -36,6 +36,8 @@ func propC04(w *World, r *Report) {
 	checkWidthDict(w, r)
 	checkStemOpEmit(w, r)
 	RunNumberExact(w, r)
+	checkFloatRange(w, r)
+	checkStemRef(w, r)
 }
 
 // ---- endchar
@@ -2251,4 +2253,125 @@ func indexLoopAsRange(info *types.Info, fs *ast.ForStmt) *ast.RangeStmt {
 		}
 	}
 	return rs
+}
+
+// checkFloatRange: a Type 2 operand is a 16-bit integer or a 16.16
+// fixed-point number, so only values of magnitude below 32768 can be written.
+// cff.encodeNumber converts its float64 argument to int16 and to int32
+// (16.16); a conversion of an out-of-range float does not fail in Go, it
+// yields an arbitrary value, and encodeNumber reports that value back as
+// "what was encoded". Every such conversion therefore has to sit behind a
+// range test of the argument (or the function has to have a way to refuse).
+func checkFloatRange(w *World, r *Report) {
+	r.Rule("floatrange: in cff.encodeNumber every conversion of a float64 that derives from the argument to an integer type is control-dependent on a comparison of a value derived from the argument that is made before the conversion (a range test); an unguarded conversion of a coordinate difference beyond the 16.16 range produces an arbitrary operand")
+	fn := w.Func("cff.encodeNumber")
+	if fn == nil || len(fn.Params) != 1 {
+		r.Fatal("cff.encodeNumber does not resolve")
+		return
+	}
+	x := fn.Params[0]
+	cc := controlConds(fn)
+	n := 0
+	for _, b := range fn.Blocks {
+		for _, in := range b.Instrs {
+			cv, ok := in.(*ssa.Convert)
+			if !ok {
+				continue
+			}
+			src, ok1 := cv.X.Type().Underlying().(*types.Basic)
+			dst, ok2 := cv.Type().Underlying().(*types.Basic)
+			if !ok1 || !ok2 || src.Info()&types.IsFloat == 0 || dst.Info()&types.IsInteger == 0 {
+				continue
+			}
+			if !backSlice(cv.X)[x] {
+				continue
+			}
+			n++
+			key := r.MkKey("floatrange", "cff.encodeNumber", "conversion "+cv.Type().String()+"(float64)")
+			guarded := false
+			for _, c := range cc[b] {
+				bs := backSlice(c)
+				// a test that itself uses a converted value is not a range test of the argument
+				usesConv := false
+				for v := range bs {
+					if c2, ok := v.(*ssa.Convert); ok {
+						if s2, ok := c2.X.Type().Underlying().(*types.Basic); ok && s2.Info()&types.IsFloat != 0 {
+							if d2, ok := c2.Type().Underlying().(*types.Basic); ok && d2.Info()&types.IsInteger != 0 {
+								usesConv = true
+							}
+						}
+					}
+				}
+				if bs[x] && !usesConv {
+					guarded = true
+				}
+			}
+			if guarded {
+				r.OK("floatrange", key, w.Pos(cv.Pos()), "behind a test of the argument")
+			} else {
+				r.Fail("floatrange", key, w.Pos(cv.Pos()), "the float64 argument is converted to "+cv.Type().String()+" without a preceding range test: for a coordinate difference of magnitude 32768 or more (two points of a glyph further apart than that, inside the coordinate range the encoder accepts) the result is an arbitrary number, which is written and reported as the encoded value", nil)
+			}
+		}
+	}
+	if n == 0 {
+		r.Fail("floatrange", r.MkKey("floatrange", "cff.encodeNumber", "conversions"), w.Pos(fn.Pos()), "no float-to-integer conversion of the argument found in cff.encodeNumber", nil)
+	}
+}
+
+// checkStemRef: stem hints are written as deltas from the previous edge, and
+// the interpreter adds up the deltas it reads — the rounded ones. The
+// reference edge the encoder subtracts (`prev`) therefore has to be advanced
+// by what encodeNumber says it encoded, like the current point of the path;
+// set from the requested edge it lets the rounding error of every delta pile
+// up along the stem list.
+func checkStemRef(w *World, r *Report) {
+	r.Rule("stemref: in (*cff.Glyph).encodeCharString the loop-carried reference edge that is subtracted from each stem edge before encodeNumber is advanced by a value that comes out of that encodeNumber call (the rounded delta), not set from the requested edge")
+	fn := w.Func("(*cff.Glyph).encodeCharString")
+	if fn == nil {
+		r.Fatal("(*cff.Glyph).encodeCharString does not resolve")
+		return
+	}
+	n := 0
+	for _, b := range fn.Blocks {
+		for _, in := range b.Instrs {
+			call, ok := in.(*ssa.Call)
+			if !ok {
+				continue
+			}
+			callee := call.Common().StaticCallee()
+			if callee == nil || callee.Name() != "encodeNumber" || len(call.Common().Args) != 1 {
+				continue
+			}
+			sub, ok := call.Common().Args[0].(*ssa.BinOp)
+			if !ok || sub.Op != token.SUB {
+				continue
+			}
+			ph, ok := sub.Y.(*ssa.Phi)
+			if !ok || !isLoopPhi(ph) {
+				continue
+			}
+			n++
+			key := r.MkKey("stemref", fnName(fn), "reference edge "+ph.Comment)
+			good := false
+			for i, e := range ph.Edges {
+				if !ph.Block().Dominates(ph.Block().Preds[i]) {
+					continue // entry edge
+				}
+				if backSliceLocal(fn, e)[call] {
+					good = true
+				} else {
+					good = false
+					break
+				}
+			}
+			if good {
+				r.OK("stemref", key, w.Pos(call.Pos()), "advanced by the encoded delta")
+			} else {
+				r.Fail("stemref", key, w.Pos(call.Pos()), "the reference edge is carried into the next iteration without the value encodeNumber encoded: it follows the requested edges while the interpreter adds the rounded deltas, so the rounding errors of fractional stem edges accumulate along the stem list instead of staying within one 16.16 step", nil)
+			}
+		}
+	}
+	if n == 0 {
+		r.Fail("stemref", r.MkKey("stemref", fnName(fn), "reference edge"), w.Pos(fn.Pos()), "no encodeNumber(edge - previous) with a loop-carried previous edge found", nil)
+	}
 }
